@@ -66,9 +66,19 @@ struct Strategy {
                 // lookup: a name seen so far, a neighbour of one, or bytes from the case
                 Bytes name;
                 uint8_t sel = s.u8();
-                if (!names.empty() && (sel & 1)) {
-                    name = names[(sel >> 1) % names.size()];
+                if (!names.empty() && (sel & 3) == 1) {
+                    name = names[(sel >> 2) % names.size()];
                     if (sel & 0x80) name.push_back((uint8_t)(sel >> 2));
+                } else if ((sel & 3) >= 2 && pb.input.n > 3) {
+                    // a name the application "knows": read from the document bytes (any 0x14-prefixed chunk), the parser is not asked
+                    size_t off = s.u16() % pb.input.n, n0 = pb.input.n;
+                    for (size_t k = 0; k < n0; k++) {
+                        size_t q = (off + k) % n0;
+                        if (pb.input.p[q] == 0x14 && q + 1 < n0 && pb.input.p[q + 1] < 0x80 && q + 2 + pb.input.p[q + 1] <= n0) {
+                            name.assign(pb.input.p + q + 2, pb.input.p + q + 2 + pb.input.p[q + 1]);
+                            break;
+                        }
+                    }
                 } else {
                     unsigned l = (sel >> 1) % 4;
                     for (unsigned i = 0; i < l; i++) name.push_back(s.u8());
